@@ -135,6 +135,29 @@ let rec dup_names (v : value) : bool =
     dup names || List.exists (fun (_, x) -> dup_names x) fs
   | _ -> false
 
+let parse_key (t : string) : key =
+  if t.[0] = 'q' then KStr (cps_of_string (body t)) else KSym (cps_of_string (body t))
+
+(* op := P<n> step*n ( s key value | d key | a<idx> value );  step := k<cps> | q<cps> | i<idx> *)
+let rec parse_ops (toks : string list) : mop list =
+  match List.filter (fun s -> s <> "") toks with
+  | [] -> []
+  | hd :: rest when hd.[0] = 'P' ->
+    let n = int_of_string (body hd) in
+    let rec steps k toks acc = if k = 0 then (List.rev acc, toks) else
+        (match toks with
+         | st :: r -> let s = if st.[0] = 'i' then PIdx (nat_of_int (int_of_string (body st))) else PKey (parse_key st) in
+           steps (k - 1) r (s :: acc)
+         | [] -> failwith "truncated path") in
+    let (path, r1) = steps n rest [] in
+    (match r1 with
+     | "s" :: kt :: r2 -> let (v, r3) = parse_value r2 in MSet (path, parse_key kt, v) :: parse_ops r3
+     | "d" :: kt :: r2 -> MDel (path, parse_key kt) :: parse_ops r2
+     | a :: r2 when a.[0] = 'a' -> let (v, r3) = parse_value r2 in
+       MASet (path, nat_of_int (int_of_string (body a)), v) :: parse_ops r3
+     | _ -> failwith "bad op")
+  | t :: _ -> failwith ("bad op header " ^ t)
+
 let value_case (id : string) (v : value) : unit =
   let js = to_json fmt v in
   let parsed = json_parse js in
@@ -159,12 +182,20 @@ let () =
          ftab := [];
          let (v, _) = parse_value rest in
          value_case id v
-       | "E" :: rest ->
-         (* the object after in-place changes: only its current value matters (the tail after "~"
-            is the history, for replay) *)
+       | "T" :: _which :: rest ->
+         (* observed in a further interpreter of the same process: the value alone matters *)
          ftab := [];
          let (v, _) = parse_value rest in
          value_case id v
+       | "E" :: rest ->
+         (* E <initial value> ~ <changes>: the object after in-place changes; its value is computed
+            by the model of the changes (run_ops, from Coq), not read off the implementation *)
+         ftab := [];
+         let (v0, r1) = parse_value rest in
+         let ops = (match r1 with "~" :: r2 -> parse_ops r2 | _ -> failwith "bad E line") in
+         (match run_ops ops v0 with
+          | Some v -> value_case id v
+          | None -> Printf.printf "%s\tjson=MODEL-REJECTS-THE-CHANGE;parse=-;unjson=-\ttree=-;back=-;flags=\n" id)
        | "W" :: k :: i :: _seed :: rest ->
          (* an interleaved history of k values; this line observes the i-th (0-based): encodings
             are values, so the model and the specification of the line are those of that value alone *)
